@@ -100,8 +100,7 @@ func (w *World) Step(kind string) {
 		if !ok {
 			w.Fail("harness: unknown step kind %q", kind)
 		}
-		st := w.Deliver(kind, gen(w))
-		w.Trace.SetResult(st.Res.OK, st.Res.Err)
+		w.Deliver(kind, gen(w))
 	}
 }
 
